@@ -322,6 +322,107 @@ func (h *host) askV2Txn(e elem, role string) (accepted, built, decisive bool, er
 	return accepted, true, decisive, err, pan
 }
 
+// v1Attack is the v1 counterpart: a signed v1 transaction that spends (siacoin, siafund) or revises
+// (contract) the presented element, and the supplement that supplies the element as its parent.
+func (h *host) v1Attack(cs consensus.State, e elem) (txn types.Transaction, ts consensus.V1TransactionSupplement, ok bool) {
+	K := h.K
+	defer func() {
+		if r := recover(); r != nil {
+			if he, is := r.(harnessErr); is {
+				panic(he)
+			}
+			ok = false
+		}
+	}()
+	var name string
+	var is bool
+	switch x := e.v.(type) {
+	case *types.SiacoinElement:
+		if name, is = h.known(x.SiacoinOutput.Address); !is {
+			return txn, ts, false
+		}
+		txn.SiacoinInputs = []types.SiacoinInput{{ParentID: x.ID, UnlockConditions: K.UC(name)}}
+		if !x.SiacoinOutput.Value.IsZero() {
+			txn.MinerFees = []types.Currency{x.SiacoinOutput.Value}
+		}
+		ts.SiacoinInputs = []types.SiacoinElement{x.Copy()}
+	case *types.SiafundElement:
+		if name, is = h.known(x.SiafundOutput.Address); !is {
+			return txn, ts, false
+		}
+		txn.SiafundInputs = []types.SiafundInput{{ParentID: x.ID, UnlockConditions: K.UC(name), ClaimAddress: K.Addr("A")}}
+		if x.SiafundOutput.Value > 0 {
+			txn.SiafundOutputs = []types.SiafundOutput{{Value: x.SiafundOutput.Value, Address: K.Addr("A")}}
+		}
+		ts.SiafundInputs = []types.SiafundElement{x.Copy()}
+	case *types.FileContractElement:
+		if name, is = h.known(x.FileContract.UnlockHash); !is {
+			return txn, ts, false
+		}
+		rev := x.FileContract
+		rev.RevisionNumber++
+		if rev.RevisionNumber == 0 {
+			return txn, ts, false
+		}
+		txn.FileContractRevisions = []types.FileContractRevision{{ParentID: x.ID, UnlockConditions: K.UC(name), FileContract: rev}}
+		c := x.Copy()
+		ts.RevisedFileContracts = []types.FileContractElement{mkElem(&c).clone().v.(*types.FileContractElement).Copy()}
+	default:
+		return txn, ts, false
+	}
+	id := types.Hash256(e.id())
+	txn.Signatures = []types.TransactionSignature{{ParentID: id, PublicKeyIndex: 0, CoveredFields: types.CoveredFields{WholeTransaction: true}}}
+	sig := K.SK(name).SignHash(cs.WholeSigHash(txn, id, 0, 0, nil))
+	txn.Signatures[0].Signature = sig[:]
+	return txn, ts, true
+}
+
+// askSuppUsed asks ValidateBlock about a v1 block in which the presented element is the actual parent
+// of a signed transaction and is supplied through the supplement. decisive: as for askV2Txn.
+func (h *host) askSuppUsed(e elem) (accepted, built, decisive bool, err error, pan any) {
+	txn, ts, ok := h.v1Attack(h.cs, e)
+	if !ok {
+		return false, false, false, nil, nil
+	}
+	miner := h.K.Addr("A")
+	blk := seal(h.cs, miner, []types.Transaction{txn}, nil)
+	_, pan = vlib.Recover(func() {
+		err = consensus.ValidateBlock(h.cs, blk, consensus.V1BlockSupplement{Transactions: []consensus.V1TransactionSupplement{ts}})
+	})
+	accepted = err == nil && pan == nil
+	e2 := e.clone()
+	proof := make([]types.Hash256, 63)
+	for i := range proof {
+		proof[i] = junkHash
+	}
+	e2.se().MerkleProof = proof
+	cs2 := h.cs
+	cs2.Elements.NumLeaves |= 1 << 63
+	cs2.Elements.Trees[63] = e2.leaf(false).ProofRoot()
+	if txn2, ts2, ok2 := h.v1Attack(cs2, e2); ok2 {
+		blk2 := seal(cs2, miner, []types.Transaction{txn2}, nil)
+		var cerr error
+		if p, _ := vlib.Recover(func() {
+			cerr = consensus.ValidateBlock(cs2, blk2, consensus.V1BlockSupplement{Transactions: []consensus.V1TransactionSupplement{ts2}})
+		}); !p && cerr == nil {
+			decisive = true
+		}
+	}
+	return accepted, true, decisive, err, pan
+}
+
+func usedRole(k kind) string {
+	switch k {
+	case kSC:
+		return "siacoin-input"
+	case kSF:
+		return "siafund-input"
+	case kFC:
+		return "revised-contract"
+	}
+	return ""
+}
+
 // ---------------------------------------------------------------------------
 // probes, verdicts, coverage
 
@@ -391,7 +492,7 @@ func (s *stats) field(door string, k kind, tpath string) {
 }
 
 type judgeOpts struct {
-	v2txn bool // also ask ValidateV2Transaction (costs signatures)
+	v2txn bool // also ask the doors that need signed transactions: ValidateV2Transaction, and ValidateBlock with the element as the parent of a signed v1 transaction
 	supp  bool // also ask ValidateBlock through the supplement
 }
 
@@ -506,6 +607,29 @@ func judge(c *vlib.Ctx, st *stats, h *host, p probe, o judgeOpts) {
 					extra = " (" + err.Error() + ")"
 				}
 				report("v2txn", role, acc, pan, extra)
+			}
+		}
+	}
+	if role := usedRole(k); o.v2txn && h.v1ok && role != "" {
+		acc, built, dec, err, pan := h.askSuppUsed(p.e)
+		if built {
+			st.mu.Lock()
+			if !dec && !acc && pan == nil {
+				st.nondec["v1:"+role]++
+				st.mu.Unlock()
+			} else {
+				st.note("supp-used", role, k, acc)
+				if acc == p.exp && !acc && p.tpath != "" {
+					st.field("supp-used", k, p.tpath)
+				}
+				st.mu.Unlock()
+				if acc != p.exp || pan != nil {
+					extra := ""
+					if err != nil {
+						extra = " (" + err.Error() + ")"
+					}
+					report("supp-used", role, acc, pan, extra)
+				}
 			}
 		}
 	}
